@@ -195,6 +195,10 @@ func rulesC07(p *Prog, r *Report) {
 		isc = sat // only used to position the report: the readers of the allowed nodes are found by following the slice
 	}
 	rulesAllowedSet(p, r)
+	// the premise of S2 — the loops read as quantifiers — needs the pair matchers to be pure and the verdict
+	// to have the ∃∀∃ shape: a matcher that writes shared state makes the verdict depend on which entries
+	// were visited before (order, duplicates), an entry added to the list can then revoke it
+	ruleX4(p, r, "X4")
 	// S2: formula polarity
 	f, _, err := satisfiesFormula(p)
 	if err != nil || f.has("unknown") {
